@@ -234,19 +234,28 @@ package remote
 //@   modifies nothing
 //@ func buildRegistryBaseURL
 //@   ensures [C20:url-shape] result == schemeOf(plainHTTP) + "://" + hostOf(ref) + "/v2/"
+//@   modifies alloc, elems[any], elems[string]
 //@ func buildRegistryCatalogURL
 //@   ensures [C20:url-shape] result == schemeOf(plainHTTP) + "://" + hostOf(ref) + "/v2/_catalog"
+//@   modifies alloc, elems[any], elems[string]
 //@ func buildRepositoryBaseURL
 //@   ensures [C20:url-shape] result == repoBaseURL(plainHTTP, ref)
+//@   modifies alloc, elems[any], elems[string]
 //@ func buildRepositoryTagListURL
 //@   ensures [C20:url-shape] result == repoBaseURL(plainHTTP, ref) + "/tags/list"
+//@   modifies alloc, elems[any], elems[string]
 //@ func buildRepositoryManifestURL
 //@   ensures [C20:url-shape] result == repoBaseURL(plainHTTP, ref) + "/" + "manifests" + "/" + ref.Reference
+//@   modifies alloc, elems[any], elems[string]
 //@ func buildRepositoryBlobURL
 //@   ensures [C20:url-shape] result == repoBaseURL(plainHTTP, ref) + "/" + "blobs" + "/" + ref.Reference
+//@   modifies alloc, elems[any], elems[string]
 //@ func buildRepositoryBlobUploadURL
 //@   ensures [C20:url-shape] result == repoBaseURL(plainHTTP, ref) + "/blobs/uploads/"
+//@   modifies alloc, elems[any], elems[string]
 //@ func buildRepositoryBlobMountURL
 //@   ensures [C20:url-shape] result == repoBaseURL(plainHTTP, ref) + "/blobs/uploads/" + "?mount=" + d + "&from=" + fromRepo
+//@   modifies alloc, elems[any], elems[string]
 //@ func buildReferrersURL
 //@   ensures [C20:url-shape] artifactType == "" ==> result == repoBaseURL(plainHTTP, ref) + "/referrers/" + ref.Reference
+//@   modifies alloc, elems[any], elems[string]
